@@ -57,6 +57,8 @@ def _interval_dict(d, tz):
                     out[k] = np.array([np.datetime64(x.tz_localize(None) if x.tzinfo else x) for x in vals])
                 elif form == "index":
                     out[k] = pd.DatetimeIndex(vals)
+                elif form == "index_freq":   # an index that carries its (calendar) frequency, as pd.date_range gives
+                    out[k] = pd.DatetimeIndex(vals, freq="D")
                 elif form == "objarray":  # what Series.to_numpy() gives for a (zone-aware) date column
                     arr = np.empty(len(vals), dtype=object)
                     for i_, x_ in enumerate(vals):
